@@ -6,7 +6,7 @@
 From Coq Require Import List NArith ZArith Bool Lia.
 From ApiFu Require Import Base.Sexp Fut.Plan Fut.ExecSync Fut.Denote Fut.FutSpec Fut.VisibleProofs
      Fut.BridgeC01 Fut.BridgeProofs Fut.BridgeNulls.
-From ApiFu Require Exe.ExecData Exe.ExecSpec.
+From ApiFu Require ExeA.ArgData ExeA.ArgArgs ExeA.ArgSpec Val.Values.
 Import ListNotations.
 
 (** erasing locations / kinds: only the response path of an error is left *)
@@ -109,7 +109,7 @@ Section BridgeCands.
 
   Lemma entry_krel n children pchildren ot path p kf :
     (forall k, CKRel (children k) (pchildren k)) -> trp path = slice p ->
-    X.group_ok_with S (X.sels_ok S Doc E fuel n) ot kf = true ->
+    X.group_ok_with S Doc (X.sels_ok S Doc E fuel n) ot kf = true ->
     Forall2 (EKRel p) (X.s_entry S children ot path kf) (p_entry code S pchildren ot kf).
   Proof.
     intros C Ep Ok. unfold X.s_entry, p_entry, X.group_ok_with in *. destruct (snd kf) as [|f fs]; [constructor|].
@@ -122,7 +122,8 @@ Section BridgeCands.
         by (rewrite trp_snoc, slice_cons, Ep; reflexivity).
       pose proof (position_krel t (path ++ [D.PKey (fst kf)]) (PKey (fst kf) :: p) _ _
                     (CR t (f :: fs) (path ++ [D.PKey (fst kf)]))
-                    (CK n t (f :: fs) (path ++ [D.PKey (fst kf)]) (PKey (fst kf) :: p) Ok) Eq) as P.
+                    (CK n t (f :: fs) (path ++ [D.PKey (fst kf)]) (PKey (fst kf) :: p)
+                        (proj2 (proj1 (andb_true_iff _ _) Ok))) Eq) as P.
       unfold KPRel in P.
       destruct (field_as_unres (is_nn t) (pchildren (D.fn_name f) t (f :: fs)) (PKey (fst kf) :: p)) as [A B].
       rewrite A, B. exact P.
@@ -157,6 +158,19 @@ Section BridgeCands.
     apply Forall2_app; [apply H; now left | apply IH; intros b Hb; apply H; now right].
   Qed.
 
+  Lemma with_args_ckrel children pchildren ot :
+    (forall k, CKRel (children k) (pchildren k)) ->
+    forall k, CKRel (X.s_with_args S Doc children ot k) (p_with_args S Doc pchildren ot k).
+  Proof.
+    intros C k. split; [apply with_args_rel; intros k0; apply (C k0)|].
+    intros n ty fields path p Ok. unfold X.s_with_args, p_with_args.
+    assert (Thr : KRel ty (X.s_throw (X.field_error path fields)) (Some VBad) path p).
+    { intros Ep. split; [|exact Logic.I]. unfold epaths_c, epaths_p, pos_esc, X.s_throw, X.field_error.
+      cbn [X.so_thrown unres map D.e_path]. rewrite Ep. destruct (is_nn ty); reflexivity. }
+    destruct fields as [|f fs]; [exact Thr|].
+    destruct (ArgArgs.coerce_field_args S Doc ot f) as [A| |]; [exact (proj2 (C _) n ty (f :: fs) path p Ok) | exact Thr | exact Thr].
+  Qed.
+
   Lemma selection_set_krel n children pchildren ot sels path p :
     (forall k, CKRel (children k) (pchildren k)) -> trp path = slice p ->
     X.sels_ok S Doc E fuel n ot sels = true ->
@@ -168,24 +182,26 @@ Section BridgeCands.
     | None => True
     end.
   Proof.
-    intros C Ep Ok. destruct n as [|n']; [discriminate|]. cbn [X.sels_ok] in Ok.
-    pose proof (selection_set_rel code S Doc E fuel children pchildren ot sels path (fun k => proj1 (C k))) as R.
-    unfold X.s_selection_set, p_selection_set in *.
+    intros C0 Ep Ok. destruct n as [|n']; [discriminate|]. cbn [X.sels_ok] in Ok.
+    pose proof (selection_set_rel code S Doc E fuel children pchildren ot sels path (fun k => proj1 (C0 k))) as R.
+    pose proof (with_args_ckrel children pchildren ot C0) as C.
+    set (ch := X.s_with_args S Doc children ot) in *. set (pch := p_with_args S Doc pchildren ot) in *.
+    unfold X.s_selection_set, X.s_selection_set_raw, p_selection_set in *. fold ch in R |- *. fold pch in R |- *.
     destruct (X.s_collect S Doc E fuel ot sels) as [groups|]; [|discriminate].
     rewrite forallb_forall in Ok.
     pose proof (Forall2_flat_map_in (EKRel p) _ _ groups
-                  (fun kf Hin => entry_krel n' children pchildren ot path p kf C Ep (Ok kf Hin))) as F.
+                  (fun kf Hin => entry_krel n' ch pch ot path p kf C Ep (Ok kf Hin))) as F.
     destruct (all_entries_k p _ _ F) as [AT AN]. unfold X.s_all in *.
-    change (cand_inner (VObj (flat_map (p_entry code S pchildren ot) groups)) p)
-      with (cand_sel cand_field p (flat_map (p_entry code S pchildren ot) groups)).
-    change (must_I (VObj (flat_map (p_entry code S pchildren ot) groups)) p)
-      with (must_sel must_F p (flat_map (p_entry code S pchildren ot) groups)).
-    destruct (X.vals_of (map snd (flat_map (X.s_entry S children ot path) groups))) as [js|];
+    change (cand_inner (VObj (flat_map (p_entry code S pch ot) groups)) p)
+      with (cand_sel cand_field p (flat_map (p_entry code S pch ot) groups)).
+    change (must_I (VObj (flat_map (p_entry code S pch ot) groups)) p)
+      with (must_sel must_F p (flat_map (p_entry code S pch ot) groups)).
+    destruct (X.vals_of (map snd (flat_map (X.s_entry S ch ot path) groups))) as [js|];
       cbn [X.so_val X.so_thrown X.so_nulls] in *.
     - destruct R as [Fl _]. split; [|exact (AN js eq_refl)].
-      pose proof (proj2 (proj1 esc_all (VObj (flat_map (p_entry code S pchildren ot) groups)) p) Fl) as Z.
-      change (cand_inner (VObj (flat_map (p_entry code S pchildren ot) groups)) p)
-        with (cand_sel cand_field p (flat_map (p_entry code S pchildren ot) groups)) in Z.
+      pose proof (proj2 (proj1 esc_all (VObj (flat_map (p_entry code S pch ot) groups)) p) Fl) as Z.
+      change (cand_inner (VObj (flat_map (p_entry code S pch ot) groups)) p)
+        with (cand_sel cand_field p (flat_map (p_entry code S pch ot) groups)) in Z.
       now rewrite Z.
     - split; [exact AT | exact Logic.I].
   Qed.
